@@ -337,15 +337,15 @@ fn check_recovered(h: &mut Harness, full: &Model, written: &[(usize, u16, bool)]
     // further appends continue the numbering: new stream, existing stream Exact(current), multi-event
     let some_pk = 0usize;
     let mut followups: Vec<AppendSpec> = Vec::new();
-    followups.push(AppendSpec { pk: some_pk, events: vec![EvSpec { stream: 900 + h.cfg.pks - 1 - (899 + h.cfg.pks) % h.cfg.pks, exp: ExpSpec::Empty, name_len: 3, meta_len: 0, payload_len: 40, kind: 1, bad_ts: false }], seq: ExpSpec::Cur(0), seed: 77, io_fail_at: None, io_fail_mid: false });
+    followups.push(AppendSpec { pk: some_pk, events: vec![EvSpec { stream: 900 + h.cfg.pks - 1 - (899 + h.cfg.pks) % h.cfg.pks, exp: ExpSpec::Empty, name_len: 3, meta_len: 0, payload_len: 40, kind: 1, bad_ts: false, meta_kind: None }], seq: ExpSpec::Cur(0), seed: 77, io_fail_at: None, io_fail_mid: false });
     if let Some((s, _)) = streams.iter().next() {
         // find the spec index of an existing stream of pk 0 if any; otherwise reuse the new stream
         let idx = (0..h.cfg.streams * h.cfg.pks).find(|i| h.cfg.stream_name(*i) == *s && i % h.cfg.pks == some_pk);
         if let Some(idx) = idx {
-            followups.push(AppendSpec { pk: some_pk, events: vec![EvSpec { stream: idx, exp: ExpSpec::Cur(0), name_len: 3, meta_len: 0, payload_len: 10, kind: 1, bad_ts: false }], seq: ExpSpec::Any, seed: 78, io_fail_at: None, io_fail_mid: false });
+            followups.push(AppendSpec { pk: some_pk, events: vec![EvSpec { stream: idx, exp: ExpSpec::Cur(0), name_len: 3, meta_len: 0, payload_len: 10, kind: 1, bad_ts: false, meta_kind: None }], seq: ExpSpec::Any, seed: 78, io_fail_at: None, io_fail_mid: false });
         }
     }
-    followups.push(AppendSpec { pk: some_pk, events: (0..3).map(|i| EvSpec { stream: (900 + h.cfg.pks - 1 - (899 + h.cfg.pks) % h.cfg.pks) + if i == 1 { h.cfg.pks } else { 0 }, exp: ExpSpec::Any, name_len: 2, meta_len: 0, payload_len: 300 * i, kind: 2, bad_ts: false }).collect(), seq: ExpSpec::Any, seed: 79, io_fail_at: None, io_fail_mid: false });
+    followups.push(AppendSpec { pk: some_pk, events: (0..3).map(|i| EvSpec { stream: (900 + h.cfg.pks - 1 - (899 + h.cfg.pks) % h.cfg.pks) + if i == 1 { h.cfg.pks } else { 0 }, exp: ExpSpec::Any, name_len: 2, meta_len: 0, payload_len: 300 * i, kind: 2, bad_ts: false, meta_kind: None }).collect(), seq: ExpSpec::Any, seed: 79, io_fail_at: None, io_fail_mid: false });
     let saved_model = std::mem::replace(&mut h.model, m.clone());
     for spec in &followups {
         h.evals += 1;
